@@ -853,13 +853,13 @@ package redis
 //@ ensures {C05} H_calls == old(H_calls) + 1 && old(limitOnly(args, 3)) ==> H_ZRangeByScore_opt_Offset[old(H_calls)] == old(argI(args, 4)) && H_ZRangeByScore_opt_Count[old(H_calls)] == old(argI(args, 5))
 
 //@ executor "ZREVRANGEBYSCORE"
-//@ ensures {C05} H_calls == old(H_calls) + 1 ==> H_m[old(H_calls)] == "ZRangeByScore" && H_conn[old(H_calls)] == conn && H_ZRangeByScore_key[old(H_calls)] == old(argS(args, 0))
-//@ ensures {C05} H_calls == old(H_calls) + 1 ==> H_ZRangeByScore_max[old(H_calls)] == parseF(scoreText(old(argS(args, 1)))) && H_ZRangeByScore_min[old(H_calls)] == parseF(scoreText(old(argS(args, 2))))
-//@ ensures {C05} H_calls == old(H_calls) + 1 ==> H_ZRangeByScore_opt_MAXEXCLUSIVE[old(H_calls)] == scoreExcl(old(argS(args, 1))) && H_ZRangeByScore_opt_MINEXCLUSIVE[old(H_calls)] == scoreExcl(old(argS(args, 2)))
+//@ ensures {C05,C12} H_calls == old(H_calls) + 1 ==> H_m[old(H_calls)] == "ZRangeByScore" && H_conn[old(H_calls)] == conn && H_ZRangeByScore_key[old(H_calls)] == old(argS(args, 0))
+//@ ensures {C05,C12} H_calls == old(H_calls) + 1 ==> H_ZRangeByScore_max[old(H_calls)] == parseF(scoreText(old(argS(args, 1)))) && H_ZRangeByScore_min[old(H_calls)] == parseF(scoreText(old(argS(args, 2))))
+//@ ensures {C05,C12} H_calls == old(H_calls) + 1 ==> H_ZRangeByScore_opt_MAXEXCLUSIVE[old(H_calls)] == scoreExcl(old(argS(args, 1))) && H_ZRangeByScore_opt_MINEXCLUSIVE[old(H_calls)] == scoreExcl(old(argS(args, 2)))
 //@ ensures {C05,C10} H_calls == old(H_calls) || H_calls == old(H_calls) + 1
 //@ ensures {C10} !old(strArg(args, 0)) || !old(strArg(args, 1)) || !old(strArg(args, 2)) ==> err != nil && H_calls == old(H_calls)
 //@ ensures {C10} old(limitAt(args, 3)) && (!old(intArg(args, 4)) || !old(intArg(args, 5))) ==> err != nil && H_calls == old(H_calls)
-//@ ensures {C05} H_calls == old(H_calls) + 1 && old(limitOnly(args, 3)) ==> H_ZRangeByScore_opt_Offset[old(H_calls)] == old(argI(args, 4)) && H_ZRangeByScore_opt_Count[old(H_calls)] == old(argI(args, 5))
+//@ ensures {C05,C12} H_calls == old(H_calls) + 1 && old(limitOnly(args, 3)) ==> H_ZRangeByScore_opt_Offset[old(H_calls)] == old(argI(args, 4)) && H_ZRangeByScore_opt_Count[old(H_calls)] == old(argI(args, 5))
 
 //@ executor "ZRANGE"
 //@ ensures {C05} H_calls == old(H_calls) + 1 ==> (H_m[old(H_calls)] == "ZRangeByScore" || H_m[old(H_calls)] == "ZRange") && H_conn[old(H_calls)] == conn && result0 == H_res[old(H_calls)] && err == H_err[old(H_calls)]
